@@ -768,7 +768,30 @@ func c19PlainStage(cfg Config, lim c19Limits, srcs []ListSource, res *ShardResul
 	}
 	c19FileStage(cfg, srcs, res)
 	c19FirstWriteStage(cfg, srcs, res)
-	req := plainReq{Kind: "c19-plain", Sources: srcs, Writers: api.WriterFormats, Reps: lim.plainReps}
+	// long lists are written fewer times (the cost of a write grows with the list, the number of map orders does not)
+	var small, big []ListSource
+	for _, src := range srcs {
+		if s := src.Build(); s != nil && len(s.Items) > 60 {
+			big = append(big, src)
+		} else {
+			small = append(small, src)
+		}
+	}
+	if err := c19PlainGroup(cfg, lim, small, lim.plainReps, res); err != nil {
+		return err
+	}
+	bigReps := lim.plainReps / 8
+	if bigReps < 3 {
+		bigReps = 3
+	}
+	return c19PlainGroup(cfg, lim, big, bigReps, res)
+}
+
+func c19PlainGroup(cfg Config, lim c19Limits, srcs []ListSource, reps int, res *ShardResult) error {
+	if len(srcs) == 0 {
+		return nil
+	}
+	req := plainReq{Kind: "c19-plain", Sources: srcs, Writers: api.WriterFormats, Reps: reps}
 	resps, err := runPlainChildren(cfg, req, lim.plainProc)
 	if err != nil {
 		return err
@@ -776,14 +799,14 @@ func c19PlainStage(cfg Config, lim c19Limits, srcs []ListSource, res *ShardResul
 	for i, src := range srcs {
 		for w, writer := range api.WriterFormats {
 			d := plainVerdict(resps, i, w)
-			res.Evaluations += int64(lim.plainReps * lim.plainProc)
-			res.Extra["plain_build_writes"] += int64(lim.plainReps * lim.plainProc)
+			res.Evaluations += int64(reps * lim.plainProc)
+			res.Extra["plain_build_writes"] += int64(reps * lim.plainProc)
 			if len(d) > 1 {
-				ep := Episode{Kind: "plain-reps", Source: src, Writer: writer, Reps: lim.plainReps, Procs: lim.plainProc}
+				ep := Episode{Kind: "plain-reps", Source: src, Writer: writer, Reps: reps, Procs: lim.plainProc}
 				b, _ := json.Marshal(ep)
 				res.Violations = append(res.Violations, Violation{Property: "C19", Class: "nondeterministic-output",
 					Signature: fmt.Sprintf("C19 %s nondeterministic-output", writer),
-					Detail:    fmt.Sprintf("list=%s writer=%s: %d distinct outputs over %d writes in each of %d fresh processes of the plain build (native map order): %v", src.Name(), writer, len(d), lim.plainReps, lim.plainProc, d),
+					Detail:    fmt.Sprintf("list=%s writer=%s: %d distinct outputs over %d writes in each of %d fresh processes of the plain build (native map order): %v", src.Name(), writer, len(d), reps, lim.plainProc, d),
 					Scenario:  b})
 			}
 		}
